@@ -194,7 +194,20 @@ func findIIFE(fset *token.FileSet, f *ast.File, src []byte, n int) *srcEdit {
 					}
 				}
 			} else if st.Tok != token.ASSIGN {
-				return true
+				// compound assignment `x op= func() T {...}()`: evaluate into a temporary first
+				if len(lhs) != 1 {
+					return true
+				}
+				t := text(fl.Type.Results.List[0].Type.Pos(), fl.Type.Results.List[0].Type.End())
+				tmp := fmt.Sprintf("%sResult", label)
+				body := rewrite(fl, func(r *ast.ReturnStmt) string {
+					if len(r.Results) != 1 {
+						return "break " + label
+					}
+					return "{\n" + tmp + " = " + text(r.Results[0].Pos(), r.Results[0].End()) + "\nbreak " + label + "\n}"
+				})
+				edit = &srcEdit{off(st.Pos()), off(st.End()), "var " + tmp + " " + t + "\n" + label + ":\nfor {\n" + body + "\nbreak " + label + "\n}\n" + lhs[0] + " " + st.Tok.String() + " " + tmp}
+				return false
 			}
 			body := rewrite(fl, func(r *ast.ReturnStmt) string {
 				if len(r.Results) != len(lhs) {
